@@ -489,6 +489,121 @@ def dupdoc_cases(tier):
     return out
 
 
+# ---------------------------------------------------------------------------------------------------------------------
+# round 6.  Class of seed C10-10: *the kind of relation of a parameter constraint*.  Before, the generator knew seven
+# constraints, all of them <, <=, >, >= or == : the spelling a constraint is stored with (ParameterConstraint.__str__) was
+# never exercised for an unequality, a logical combination, a negation, a constant relation, or a relation handed over as a
+# sympy object / ParameterConstraint object.  Every relation kind x every constraint carrying class, with parameter
+# assignments that satisfy and that violate each relation (the loaded pulse must reject exactly what the original rejects).
+RELATIONS = [
+    # (label, spelling handed to the constructor)
+    ('ne', 'Ne(a, b)'), ('ne-obj', {'#sym': 'Ne(a, b)'}), ('ne-pc', {'#pc': 'Ne(a, b)'}), ('ne-expr', 'Ne(a + b, c)'),
+    ('ne-const', 'Ne(a, 1)'), ('ne-only-here', 'Ne(q, r)'),
+    ('eq', 'Eq(a, b)'), ('eq-text', 'a == b'), ('eq-obj', {'#sym': 'Eq(a, b)'}), ('eq-expr', 'a + b == c'),
+    ('lt', 'a < b'), ('le', 'a <= b'), ('gt', 'a > b'), ('ge', 'a >= b'), ('lt-obj', {'#sym': 'a < b'}),
+    ('and', 'And(a < b, b < c)'), ('and-op', '(a < b) & (b < c)'), ('or', 'Or(a < b, c < 1)'), ('or-ne', 'Or(a < b, Ne(b, c))'),
+    ('and-ne', 'And(Ne(a, b), c > 0)'), ('not', 'Not(a < b)'), ('not-op', '~(a < b)'), ('not-eq', 'Not(Eq(a, b))'),
+    ('xor', 'Xor(a < b, b < c)'), ('implies', 'Implies(a < b, c > 2)'), ('ite', 'ITE(a < b, c > 2, d > 0)'),
+    ('abs', 'Abs(a - b) > 1/2'), ('max', 'Max(a, b) <= c'), ('rational', 'a < b + 1/3'), ('pow', 'a**2 <= b'),
+    ('const-true', '1 < 2'), ('const-ne', 'Ne(1, 2)'),
+]
+# all equal / descending / a == b only / ascending with c small
+CONSTRAINT_PROBES = [
+    {'a': 1, 'b': 1, 'c': 1, 'd': 1, 'n': 1, 'v': 1, 'w': 1, 'q': 1, 'r': 1, 'i': 0, 'k': 1},
+    {'a': 4, 'b': 3, 'c': 2, 'd': -1, 'n': 2, 'v': 0.5, 'w': 2, 'q': 2, 'r': 1, 'i': 0, 'k': 1},
+    {'a': 2, 'b': 2, 'c': 5, 'd': 1, 'n': 1, 'v': -1, 'w': 0, 'q': 3, 'r': 3, 'i': 0, 'k': 1},
+    {'a': 1, 'b': 2, 'c': 0, 'd': 2, 'n': 3, 'v': 2, 'w': 1, 'q': 0, 'r': 5, 'i': 0, 'k': 1},
+]
+
+
+def _constraint_carriers(cons):
+    """(class label, nodes) - every class with a parameter_constraints argument, the constraint list on the last node"""
+    leaf = dict(k='Table', entries=[['A', [[0, 0], [4, 'v', 'linear']]]])
+    return [
+        ('Table', [dict(leaf, parameter_constraints=cons)]),
+        ('Point', [dict(k='Point', points=[[0, 0], [4, 'v', 'linear']], chans=['A'], parameter_constraints=cons)]),
+        ('Function', [dict(k='Function', ex='v*t', dur=4, ch='A', parameter_constraints=cons)]),
+        ('Sequence', [leaf, dict(k='Sequence', subs=[0, 0], parameter_constraints=cons)]),
+        ('Repetition', [leaf, dict(k='Repetition', body=0, count=2, parameter_constraints=cons)]),
+        ('ForLoop', [dict(k='Table', entries=[['A', [[0, 'i'], [4, 'v', 'linear']]]]),
+                     dict(k='ForLoop', body=0, idx='i', rng=2, parameter_constraints=cons)]),
+        ('Mapping', [leaf, dict(k='Mapping', tmpl=0, pmap=[['v', 'v*2']], parameter_constraints=cons)]),
+        ('AtomicMulti', [leaf, dict(k='Constant', dur=4, amps=[['B', 1]]),
+                         dict(k='AtomicMulti', subs=[0, 1], parameter_constraints=cons)]),
+    ]
+
+
+def constraint_cases(tier):
+    out = []
+    nclass = 8
+    for ri, (rl, rel) in enumerate(RELATIONS):
+        for ci, (cl, nodes) in enumerate(_constraint_carriers([rel])):
+            # quick tier: every relation on two classes (rotating), the unequalities and the object spellings on every class
+            if tier == 'quick' and not rl.startswith('ne') and (ci - ri) % nclass not in (0, 3):
+                continue
+            try:
+                G.build(nodes)
+            except Exception:   # noqa  the constructor rejects this spelling
+                continue
+            # known finding constraint_text_not_reparsable: Xor is printed with '^' (read as a power), a relation between
+            # numbers is evaluated by the constructor and stored as 'True' (read as a python bool): the load fails loudly
+            known = ['cons_text'] if rl in ('xor', 'const-true', 'const-ne') else []
+            c = _case('%s:constraint=%s' % (cl, rl), nodes, len(out), flag='constraint', extra=['constraint-' + rl] + known)
+            c['probes'] = CONSTRAINT_PROBES
+            out.append(c)
+    # two constraints, the unequality first / last; the same relation on a named child and on its parent
+    for ci, (cl, nodes) in enumerate(_constraint_carriers(['Ne(a, b)', 'c > a'])):
+        c = _case('%s:constraint=ne+gt' % cl, nodes, len(out), flag='constraint', extra=['constraint-list'])
+        c['probes'] = CONSTRAINT_PROBES
+        out.append(c)
+    nodes = [dict(k='Function', id='f', ex='v*t', dur=4, ch='A', parameter_constraints=['Ne(a, b)']),
+             dict(k='Sequence', subs=[0, 0], parameter_constraints=['a <= b', 'Ne(b, c)'])]
+    c = _case('Sequence:constraint=child-and-parent', nodes, len(out), flag='constraint', extra=['constraint-list'])
+    c['probes'] = CONSTRAINT_PROBES
+    out.append(c)
+    return out
+
+
+# Class of the round-6 repair 53c32cc: *an explicit AtomicMultiChannelPT duration that compares equal to a bool* (0, 1, 0.0,
+# 1.0, '0', '1'; stored as a number, and `1 in (True, False)` holds).  Every spelling of the values 0, 1, 2 and a parameter;
+# the sub templates last as long as declared, so that the enforced duration can be instantiated.
+def amcdur_cases(tier):
+    out = []
+    for val in (0, 1, 2):
+        spellings = [('int', val), ('float', float(val)), ('str', str(val)), ('str-float', '%d.0' % val), ('expr', {'#expr': str(val)}),
+                     ('np-int64', NP('int64', val)), ('np-float64', NP('float64', float(val)))]
+        for sl, sp in spellings:
+            for sub in ('const', 'param'):
+                d = val if sub == 'const' else 'd'
+                nodes = [dict(k='Constant', dur=d, amps=[['A', 1]]), dict(k='Constant', dur=d, amps=[['B', 'b']]),
+                         dict(k='AtomicMulti', subs=[0, 1], dur=sp, measurements=[['m', 0, sp if sl in ('int', 'str') else 0]])]
+                try:
+                    G.build(nodes)
+                except Exception:   # noqa
+                    continue
+                c = _case('AtomicMulti:duration=%s:%s:%s' % (sl, val, sub), nodes, len(out), flag='amcdur')
+                c['probes'] = [{'d': val, 'b': 1}, {'d': val + 1, 'b': 1}]
+                out.append(c)
+                if sub == 'const' and sl in ('int', 'str', 'float'):      # below a composite, named (reference) and embedded
+                    for named in (None, 'amc'):
+                        n2 = copy.deepcopy(nodes)
+                        n2[2]['id'] = named
+                        n2.append(dict(k='Sequence', subs=[2, 2]))
+                        c = _case('Sequence:of-AtomicMulti:duration=%s:%s:%s' % (sl, val, 'ref' if named else 'inline'), n2,
+                                  len(out), flag='amcdur')
+                        out.append(c)
+    # deprecated boolean spellings: interpreted as "not declared" on both sides
+    for b in (True, False):
+        nodes = [dict(k='Constant', dur=1, amps=[['A', 1]]), dict(k='Constant', dur=1, amps=[['B', 'b']]),
+                 dict(k='AtomicMulti', subs=[0, 1], xkw={'duration': b})]
+        out.append(_case('AtomicMulti:duration=bool:%s' % b, nodes, len(out), flag='amcdur'))
+    return out
+
+
+def round6_cases(tier):
+    return constraint_cases(tier) + amcdur_cases(tier)
+
+
 def round5_cases(tier):
     return exprobj_cases(tier) + intval_cases(tier) + dupdoc_cases(tier)
 
